@@ -140,10 +140,10 @@ def main():
     H = harnesses()
     # (build, harness, model, bound, restrict-to-ops, time cap)
     if chk.thorough:
-        plan = [("b2", n, "deviation", 3, None, 600) for n in H]
-        plan += [("b2", "g2p1", "preempt", 1, None, 600), ("b2", "g2p2", "preempt", 0, None, 300)]
-        plan += [("b16", n, "deviation", 1, None, 300) for n in H]
-        plan += [("b16", "g2p1", "deviation", 2, HANDOFF, 900)]
+        plan = [("b2", n, "deviation", 3, None, 120) for n in H]
+        plan += [("b2", "g2p1", "preempt", 1, None, 200), ("b2", "g2p2", "preempt", 0, None, 150)]
+        plan += [("b16", n, "deviation", 1, None, 60) for n in H]
+        plan += [("b16", "g2p1", "deviation", 2, HANDOFF, 300)]
     else:
         plan = [("b2", n, "deviation", 2, None, 60) for n in H]
         plan += [("b16", "g2p1", "deviation", 1, None, 60)]
